@@ -7,7 +7,8 @@ from harness.interp_run import run_case
 
 
 def m3_stream(ctx, stream: str, n_cases: int, features: set[str] | None = None, max_lines: int = 14,
-              max_depth: int = 3, malformed: bool = False, inject: bool = False, extra_cases: list | None = None):
+              max_depth: int = 3, malformed: bool = False, inject: bool = False, extra_cases: list | None = None,
+              with_lines: bool = False):
     """Runs `n_cases` generated cases; returns the list of cases (for the oracles)."""
     rng = ctx.rng
     cases = list(extra_cases or [])
@@ -44,4 +45,6 @@ def m3_stream(ctx, stream: str, n_cases: int, features: set[str] | None = None, 
             ctx.count("runs_with_interpreter_error")
         if any("me" in x.split("|ev=")[1].split("|fl=")[0].split(" ") for x in o if "|ev=" in x):
             ctx.count("runs_reaching_method_end")
+    if with_lines:   # also the op lines of every case (to tell which answer belongs to which op)
+        return cases, impl_out, model_out, [both(c)[0] for c in cases]
     return cases, impl_out, model_out
